@@ -69,6 +69,9 @@ struct RunCfg
     bool sym_tol;
     bool shift_solver;
     std::string history;  // "ic" init,compute | "icc" | "icic" | "c" (compute without init: only accessors checked)
+    // 'C' in the history = compute() with these other arguments (a second run on the same object with another rule / maxit)
+    SortRule selection2 = SortRule::LargestAlge, sorting2 = SortRule::LargestAlge;
+    int maxit2 = 0;
 };
 
 // oracle evaluated after every compute()
@@ -240,6 +243,13 @@ static void glue_case(const RunCfg& cfg)
                 sym::expect("after init(): num_operations()==true applications", eigs.num_operations() == st().true_ops, "counter mismatch after init");
                 continue;
             }
+            RunCfg cur = cfg;
+            if (h == 'C')
+            {
+                cur.selection = cfg.selection2;
+                cur.sorting = cfg.sorting2;
+                cur.maxit = cfg.maxit2;
+            }
             long ops_before = st().true_ops;
             int restarts_before = st().restarts;
             st().restart_k.clear();
@@ -253,7 +263,7 @@ static void glue_case(const RunCfg& cfg)
             bool threw = false;
             try
             {
-                ret = eigs.compute(cfg.selection, cfg.maxit, tol, cfg.sorting);
+                ret = eigs.compute(cur.selection, cur.maxit, tol, cur.sorting);
             }
             catch (const std::invalid_argument& e)
             {
@@ -262,10 +272,10 @@ static void glue_case(const RunCfg& cfg)
             int r = st().restarts;
             st().restarts = restarts_before + r;
             sym::expect("invalid_argument iff a rule is unsupported", threw == !(sel_ok && sort_ok),
-                        std::string(threw ? "threw" : "accepted") + " selection=" + rule_name(cfg.selection) + " sorting=" + rule_name(cfg.sorting));
+                        std::string(threw ? "threw" : "accepted") + " selection=" + rule_name(cur.selection) + " sorting=" + rule_name(cur.sorting));
             if (threw || !(sel_ok && sort_ok))
                 break;
-            check_after_compute(eigs, cfg, tol, ret, sigma, ops_before, restarts_before, "compute#" + std::to_string(step));
+            check_after_compute(eigs, cur, tol, ret, sigma, ops_before, restarts_before, "compute#" + std::to_string(step));
         }
     };
     if (cfg.shift_solver)
@@ -337,6 +347,8 @@ int main(int argc, char** argv)
     auto add = [&](const std::string& fam, RunCfg c) {
         std::string nm = fam + "/n" + std::to_string(c.n) + "k" + std::to_string(c.nev) + "m" + std::to_string(c.ncv) + "/" + rule_name(c.selection) + "/" +
             rule_name(c.sorting) + "/maxit" + std::to_string(c.maxit) + "/" + c.history + (c.sym_tol ? "/symtol" : "") + (c.shift_solver ? "/shift" : "");
+        if (c.history.find('C') != std::string::npos)
+            nm += std::string("/then-") + rule_name(c.selection2) + "-" + rule_name(c.sorting2) + "-maxit" + std::to_string(c.maxit2);
         cases.push_back({nm, [c]() { glue_case(c); }});
     };
     const SortRule sels[] = {SortRule::LargestMagn, SortRule::LargestAlge, SortRule::SmallestMagn, SortRule::SmallestAlge, SortRule::BothEnds};
@@ -365,6 +377,26 @@ int main(int argc, char** argv)
             add("full", RunCfg{sz[0], sz[1], sz[2], sel, SortRule::LargestAlge, 2, false, false, "ic"});
             add("fullshift", RunCfg{sz[0], sz[1], sz[2], sel, SortRule::LargestAlge, 2, false, true, "ic"});
         }
+    // a second compute() with OTHER arguments on the same object, no init() in between (rule / maxit of the latest call must govern)
+    {
+        const int hs[][3] = {{3, 1, 2}, {4, 2, 3}};
+        for (auto& sz : hs)
+            for (int maxit = 0; maxit <= 1; maxit++)
+                for (int maxit2 = 0; maxit2 <= 1; maxit2++)
+                    for (int sh = 0; sh < 2; sh++)
+                    {
+                        add("hist2", RunCfg{sz[0], sz[1], sz[2], SortRule::LargestAlge, SortRule::LargestAlge, maxit, false, sh == 1, "icC", SortRule::SmallestAlge, SortRule::LargestAlge, maxit2});
+                        add("hist2", RunCfg{sz[0], sz[1], sz[2], SortRule::BothEnds, SortRule::LargestAlge, maxit, false, sh == 1, "icC", SortRule::LargestMagn, SortRule::SmallestMagn, maxit2});
+                    }
+        const int fs[][3] = {{3, 1, 3}, {4, 2, 4}};
+        for (auto& sz : fs)
+            for (int maxit2 = 0; maxit2 <= 2; maxit2 += 2)
+                for (int sh = 0; sh < 2; sh++)
+                {
+                    add("full2", RunCfg{sz[0], sz[1], sz[2], SortRule::LargestAlge, SortRule::LargestAlge, 2, false, sh == 1, "icC", SortRule::SmallestAlge, SortRule::LargestAlge, maxit2});
+                    add("full2", RunCfg{sz[0], sz[1], sz[2], SortRule::SmallestMagn, SortRule::LargestAlge, 2, false, sh == 1, "icC", SortRule::BothEnds, SortRule::SmallestAlge, maxit2});
+                }
+    }
     // rule validation (C12 / C18): every rule as selection and as sorting
     for (SortRule r : all_rules)
     {
